@@ -46,6 +46,7 @@ type Preset struct {
 	SyncCommitteeSize                                            uint64
 	MaxValidatorsPerCommittee                                    uint64 // 0 = 32
 	AllEth1Creds                                                 bool   // every genesis validator has 0x01 credentials (default: every 4th)
+	OddVectors                                                   bool   // history vectors whose lengths are not powers of two (9 mixes, 12 roots, 5 slashings)
 }
 
 func T4(forks [5]uint64) *Preset {
@@ -96,6 +97,11 @@ func (p *Preset) Spec() *common.Spec {
 	s.EPOCHS_PER_HISTORICAL_VECTOR = 8
 	s.EPOCHS_PER_SLASHINGS_VECTOR = 4
 	s.HISTORICAL_ROOTS_LIMIT = 64
+	if p.OddVectors {
+		s.EPOCHS_PER_HISTORICAL_VECTOR, s.EPOCHS_PER_SLASHINGS_VECTOR = 9, 5
+		s.SLOTS_PER_HISTORICAL_ROOT = common.Slot(3 * p.SPE)
+		s.HISTORICAL_ROOTS_LIMIT = 100
+	}
 	s.VALIDATOR_REGISTRY_LIMIT = 1 << 12
 	s.BASE_REWARD_FACTOR = 64
 	s.WHISTLEBLOWER_REWARD_QUOTIENT = 512
